@@ -117,10 +117,13 @@ def _run_requests(ctx, case, w):
         _one_request(ctx, case, w, rq, model, recv, dust, netinfo)
 
 
-def _amount(rq_amount, model, min_confirms):
+def _amount(rq_amount, model, min_confirms, fee=None):
     vals = [u['value'] for u in model.values()]
     conf_vals = [u['value'] for u in model.values() if u['conf'] >= min_confirms]
     base = {'largest': max(vals) if vals else 0, 'confirmed': sum(conf_vals), 'total': sum(vals)}[rq_amount['of']]
+    if 'leave' in rq_amount:
+        # everything except the (explicit) fee and a drawn remainder: puts the change on the dust boundary
+        return max(0, base - (fee if isinstance(fee, int) else 0) - rq_amount['leave'])
     return max(0, int(base * rq_amount['num'] // rq_amount['den']) + rq_amount.get('plus', 0))
 
 
@@ -133,7 +136,7 @@ def _one_request(ctx, case, w, rq, model, recv, dust, netinfo):
     outputs = []
     wanted = []   # (spk, amount)
     for o in rq['outputs']:
-        amt = _amount(o['amount'], model, min_conf)
+        amt = _amount(o['amount'], model, min_conf, rq.get('fee'))
         if o.get('own'):
             key = recv[o['own'] % len(recv)]
             addr = key.address
@@ -350,6 +353,11 @@ def _strategy(ctx):
     from ref import address as raddr
 
     def amount():
+        return st.one_of(amount_frac(), amount_frac(), st.fixed_dictionaries({
+            'of': st.sampled_from(['largest', 'confirmed']),
+            'leave': st.sampled_from([0, 1, 500, 999, 1000, 1001, 1500, 2500, 6000])}))
+
+    def amount_frac():
         return st.fixed_dictionaries({
             'of': st.sampled_from(['largest', 'largest', 'confirmed', 'total']),
             'num': st.sampled_from([1, 1, 1, 1, 2, 3, 9, 50, 99, 100, 101]),
